@@ -18,7 +18,7 @@ HOOKS = {
 
 ENGINES = [
     {'name': 'vf', 'path': 'vf/harness.py',
-     'serves_properties': ['C01', 'C02', 'C03', 'C04', 'C05', 'C06', 'C10', 'C07', 'C08', 'C09', 'C13', 'C15', 'C16', 'C17', 'C18', 'C19', 'C20'],
+     'serves_properties': ['C01', 'C02', 'C03', 'C04', 'C05', 'C06', 'C10', 'C07', 'C08', 'C09', 'C13', 'C14', 'C15', 'C16', 'C17', 'C18', 'C19', 'C20'],
      'kind_free_text': ('runtime monitoring driver: 16 worker processes import the real '
                         'openhtf from /repo, run enumerated + seeded cases, monitors '
                         'decide each property from observed events; witnesses are '
@@ -253,5 +253,19 @@ CHECKS = {
                  'is a lost update; every watcher must end on COMPLETED; snapshots must not raise'),
         'note': ('the mixin\'s _lock / UserInput._cond are replaced on the instance by cooperative locks; wall-clock time-outs '
                  'only guard the harness (inconclusive), verdicts come from logical witnesses'),
+    },
+    'C14': {
+        'level': 'exploration',
+        'technique': 'runtime history monitoring under controlled schedules: reactive fake ADB device with uniquely tagged bytes; per-stream byte logs and device-side message log judged after runs in which one host thread is held at a chosen line (sys.monitoring), under yield-injection stress, and under every device-side merge order',
+        'text': ('1-3 streams are opened concurrently; each has a reader and a writer thread (host payload up to 400 bytes with '
+                 'maxdata 64); the device answers OPEN with OKAY followed at once by all its WRTE messages and closes after it '
+                 'received the host bytes; schedules: one thread role held 150 ms at a sampled (quick: 60 per scenario) or every '
+                 '(thorough, hits <= 3) reached line of adb_protocol.py / adb_message.py, seeded yield injection, and all 20 '
+                 'merge orders of two streams\' device messages; judged: bytes read per stream equal the device\'s bytes in '
+                 'order, one OKAY(local, remote) per device WRTE, host chunks <= maxdata, never a second WRTE before the OKAY, '
+                 'host bytes arrive intact, exactly one CLSE per stream, no call ends by its time-out although the device had '
+                 'sent all it waited for (lost wake-up witness), no thread hangs'),
+        'note': ('preemption bound 1 plus stress; 6 s call time-outs serve only as the end of a lost-wake-up witness; trusts '
+                 'vf/fakeadb.py'),
     },
 }
